@@ -2,6 +2,8 @@
 
 Domain   generated histories: interleaved create / create -sf runs (succeeding or ending 10/11) and tree edits over
          flat and nested layouts (folder names up to 227 bytes, the longest whose manifest name fits), under the real clock (several runs fall into one second) or a frozen one.
+         Later additions: folder-mode runs write into every history below the invoked root (plain folders in between or
+         not); folder names of 200-227 bytes enumerated.
 Oracle   byte snapshots of every ascmhl folder before/after each run: old manifests identical; each touched history
          gains exactly one manifest, numbered max+1, named NNNN_<folder>_<UTC>Z.mhl with the UTC time inside the
          run's window; the chain (independent reader) = old entries unchanged, in order, + one entry whose
